@@ -5,7 +5,8 @@
   byte leaves the default 500 response with an empty body), together with
   `AccessoryDriver.setup_srp_verifier` / `pair` and `State.paired` / `add_paired_client`.
 
-  The model mirrors the REPAIRED code (design/fixes/C08.patch then design/fixes/C01.patch):
+  The model mirrors the REPAIRED code (design/fixes/C08.patch, design/fixes/C01.patch, then
+  design/fixes/C01-replayed-m5.patch: the verifier is discarded once an M5 has produced a pairing):
   HKDF is fed `Kb` (the 64 digest bytes) and M5 answers M6/authentication-error unless the current
   verifier recorded a successful `verify`.  `stepLegacy` keeps the shipped M5 (no gate,
   `long_to_bytes(K)` into HKDF) for the counterexample theorems.
@@ -108,6 +109,11 @@ structure PS where
   /-- `accessory_handler.srp_verifier` -/
   verifier : Option Server
 
+/-- The identifier the accessory ADVERTISES: `AccessoryMDNSServiceInfo._get_advert_data()["id"]`, which
+    is `state.mac` verbatim — the very bytes `_pairing_five` signs and sends as USERNAME in M6.  (The
+    correspondence run reads it from the real advertisement, not from `state.mac`.) -/
+def advertisedId (ps : PS) : Bytes := ps.mac
+
 /-- one `POST /pair-setup` -/
 structure Req where
   body : Bytes
@@ -194,7 +200,10 @@ def pairingFive (cfg : Cfg) (ps : PS) (Kb user cltpk encKey : Bytes) (calls : Li
   let calls := calls ++ [.hkdf Kb P5_SALT P5_INFO, .sign material, .enc encKey NONCE6 message, .uuid user]
   match cfg.c.uuidOf user with
   | none => (ps, .err500, calls)             -- UnicodeDecodeError / ValueError
-  | some u => ({ ps with paired := setPairing ps.paired u cltpk PERM_ADMIN }, .m6 aead, calls)
+  | some u =>
+    -- the SRP exchange is single use: once it has produced a pairing the verifier is discarded
+    -- (design/fixes/C01-replayed-m5.patch), so a replayed M5 finds no verified session
+    ({ ps with paired := setPairing ps.paired u cltpk PERM_ADMIN, verifier := none }, .m6 aead, calls)
 
 /-- `_pairing_four`: check the controller's signature -/
 def pairingFour (cfg : Cfg) (ps : PS) (Kb user cltpk cproof encKey : Bytes) (calls : List Call) : Res :=
@@ -263,6 +272,13 @@ def run (cfg : Cfg) : PS → List Req → PS × List Out
     let (ps2, os) := run cfg ps1 rs
     (ps2, o :: os)
 
+/-- The handler before the single-use repair (C08 + C01 repairs only): a successful M5 left the verified
+    verifier on the driver.  Kept for the counterexample theorem `C01_replayed_m5_legacy`. -/
+def stepKeep (cfg : Cfg) (ps : PS) (r : Req) : Res :=
+  match step cfg ps r with
+  | (ps', .m6 e, calls) => ({ ps' with verifier := ps.verifier }, .m6 e, calls)
+  | res => res
+
 /-! ### what else happens on the accessory while a pair-setup is in flight
 
   The SRP session lives on the driver, not on a connection, so other connections matter.  A bystander's
@@ -279,6 +295,10 @@ inductive Ev
   | connLost
   /-- any other request on an unverified connection (answered 401 / 4xx, no effect here) -/
   | other
+  /-- the accessory becomes unpaired again: the last admin pairing is removed (`POST /pairings` remove →
+      `AccessoryDriver.unpair` → `State.remove_paired_client`, which clears every pairing with the last
+      admin).  Pair-setup is open again; nothing else of the pair-setup state is touched. -/
+  | unpair
 
 def Ev.isBystander : Ev → Bool
   | .req _ => false
@@ -288,6 +308,7 @@ def stepEv (cfg : Cfg) (ps : PS) : Ev → PS × Option Out
   | .req r => ((step cfg ps r).1, some (step cfg ps r).2.1)
   | .connLost => (ps, none)
   | .other => (ps, none)
+  | .unpair => ({ ps with paired := [] }, none)
 
 /-- run a history of events; the answers to the pair-setup requests are collected -/
 def runEv (cfg : Cfg) : PS → List Ev → PS × List Out
